@@ -56,7 +56,7 @@ Definition dec_float (l : list N) : option (pyfloat * list N) :=
       match dec_big r with
       | Some (m, r') =>
           match dec_Z r' with
-          | Some (e, r'') => Some (FFin (negb (s =? 0)) m e, r'')
+          | Some (e, r'') => Some (f_norm (FFin (negb (s =? 0)) m e), r'')
           | None => None
           end
       | None => None
@@ -132,12 +132,6 @@ Definition enc_Z (z : Z) : list N :=
   (if (z <? 0)%Z then 1 else 0) :: enc_big (Z.abs_N z).
 
 Definition enc_text (s : text) : list N := N.of_nat (length s) :: s.
-
-Fixpoint trailing_zeros (p : positive) : Z :=
-  match p with
-  | xO q => (1 + trailing_zeros q)%Z
-  | _ => 0%Z
-  end.
 
 Definition enc_bool (b : bool) : N := if b then 1 else 0.
 
